@@ -456,7 +456,7 @@ func genDeepGrammar(r *rng) toolInput {
 func genLRRecovery(r *rng) toolInput { return genLRRecoveryN(r, -1) }
 
 // lrShapeCount is the number of shapes genLRRecoveryN knows.
-const lrShapeCount = 22
+const lrShapeCount = 23
 
 // genLRRecoveryN takes shape i (every shape once when i counts up), or a drawn one.
 func genLRRecoveryN(r *rng, i int) toolInput {
@@ -502,6 +502,10 @@ func genLRRecoveryN(r *rng, i int) toolInput {
 		// rules that are nothing but another name for a rule, in a circle
 		"Expr <- Term\nTerm <- Expr\n",
 		"S <- E 'x' / 'y'\nE <- T\nT <- F\nF <- E\nG <- F\n",
+		// a dense component: every cycle goes through Root, all but one through
+		// Gate; hundreds of cycles, so that an analysis which looks at some of
+		// them only looks at other ones from run to run
+		denseHub(),
 	}
 	if len(shapes) != lrShapeCount {
 		panic("lrShapeCount is out of date")
@@ -527,6 +531,9 @@ func genLRRecoveryN(r *rng, i int) toolInput {
 	}
 	if strings.Contains(g, "A11") {
 		name, rules = "digitnames", []string{"A", "A1"}
+	}
+	if strings.Contains(g, "Gate <- Root") {
+		name, rules = "densehub", []string{"Root", "Gate"}
 	}
 	if strings.Contains(g, "Term <- Expr") || strings.Contains(g, "F <- E\n") {
 		name, rules = "aliascycle", []string{"Expr", "S"}
@@ -675,4 +682,26 @@ func genOptShape(r *rng) toolInput {
 	}
 	fmt.Fprintf(&b, "%s <- %s\n", prev, r.pick([]string{"\"@\"", "'#'", "[@#]", "\"@\"i", "\"\""}))
 	return toolInput{Name: "optshape", Class: "gen", Grammar: []byte(b.String()), Rules: names}
+}
+
+// denseHub builds the dense left-recursive component described in
+// genLRRecoveryN: Root <- N1; Ni refers to every later Nj and to Gate; Gate
+// refers to Root; N1 also refers to Root directly.
+func denseHub() string {
+	var b strings.Builder
+	b.WriteString("Root <- N1 'a' / 'r'\n")
+	const n = 9
+	for i := 1; i <= n; i++ {
+		fmt.Fprintf(&b, "N%d <- ", i)
+		for j := i + 1; j <= n; j++ {
+			fmt.Fprintf(&b, "N%d 'n' / ", j)
+		}
+		b.WriteString("Gate 'g'")
+		if i == 1 {
+			b.WriteString(" / Root 'z'")
+		}
+		b.WriteString("\n")
+	}
+	b.WriteString("Gate <- Root 'q' / 'w'\n")
+	return b.String()
 }
